@@ -827,7 +827,7 @@ NONTRIVIAL = {
 }
 
 
-def make_run(prop, bias, scenario_filter=None, quick_cases=1280, thorough_cases=32000, per_shard_scenarios=(4, 12),
+def make_run(prop, bias, scenario_filter=None, quick_cases=1280, thorough_cases=16000, per_shard_scenarios=(4, 12),
              enumerate_failures=False):
     def run(ctx):
         simmod.setup()
